@@ -6,6 +6,8 @@ Oracle: brute force from the C05 / C12 references and the analytic toy model;
 names / IDs by perturbation observed through taps on the owned mechanistic
 model (shared call list) and on the filter's public compute_log_likelihood.
 """
+import functools
+
 import numpy as np
 import pints
 
@@ -64,6 +66,7 @@ def _patch_filters():
         cls = getattr(chi, cname)
         orig = cls.compute_log_likelihood
 
+        @functools.wraps(orig)
         def wrapped(self, simulated_obs, _orig=orig):
             if _TAP['on']:
                 _TAP['args'].append(np.array(simulated_obs, dtype=float))
